@@ -289,5 +289,184 @@ example : (match demoRun 5, demoRun 6 with
     | _, _ => false) = true := by decide +kernel
 end lockHolder
 
+section provenance
+open PC
+/-! ## nothing is invented: every output / error text anywhere was reported for that job by the process it names (model `C10R`,
+every reachable state, any history, any restart patterns, any interleaving) -/
+
+/-- the record's output and error text name a process that executed this very job (an entry of the execution log), or are the texts
+    the history already carried for this job -/
+def okRec (hist : Nat → Job) (log : List (Nat × Nat)) (j : Nat) (r : Job) : Prop :=
+  (∀ p, r.out = some p → (p, j) ∈ log ∨ (hist j).out = some p) ∧
+  (∀ p, r.err = some p → (p, j) ∈ log ∨ (hist j).err = some p)
+
+def ProvInv (hist : Nat → Job) (s : S) : Prop :=
+  ∀ j, okRec hist s.execLog j (s.disk j) ∧ okRec hist s.execLog j (s.bak j) ∧ ∀ q, okRec hist s.execLog j ((s.proc q).mem j)
+
+theorem okRec_mono {hist : Nat → Job} {log log' : List (Nat × Nat)} {j : Nat} {r : Job} (h : okRec hist log j r)
+    (hsub : ∀ e ∈ log, e ∈ log') : okRec hist log' j r := by
+  refine ⟨fun p hp => ?_, fun p hp => ?_⟩
+  · rcases h.1 p hp with h1 | h1
+    · exact Or.inl (hsub _ h1)
+    · exact Or.inr h1
+  · rcases h.2 p hp with h1 | h1
+    · exact Or.inl (hsub _ h1)
+    · exact Or.inr h1
+
+theorem okRec_merge {hist : Nat → Job} {log : List (Nat × Nat)} (p : Nat) (ext mem : Nat → Job) (j : Nat)
+    (h1 : okRec hist log j (ext j)) (h2 : okRec hist log j (mem j)) : okRec hist log j (merge p ext mem j) := by
+  unfold merge
+  split
+  · split
+    · exact ⟨fun q hq => h1.1 q (by simpa [updateFrom] using hq), fun q hq => h1.2 q (by simpa [updateFrom] using hq)⟩
+    · exact h2
+  · exact h2
+
+theorem okRec_assign {hist : Nat → Job} {log : List (Nat × Nat)} (p : Nat) (c : Cfg) (J : Nat) :
+    ∀ (fuel : Nat) (mem : Nat → Job) (mpos : Nat) (cache : List Nat) (started : Nat),
+      (∀ j, okRec hist log j (mem j)) → ∀ j, okRec hist log j ((assign p c J fuel mem mpos cache started).1 j) := by
+  intro fuel
+  induction fuel with
+  | zero => intro mem mpos cache started h j; simpa [assign] using h j
+  | succ n ih =>
+    intro mem mpos cache started h j
+    unfold assign
+    split
+    · split
+      · apply ih
+        intro k
+        unfold upd
+        split
+        · exact ⟨fun q hq => by simp [assignTo] at hq, fun q hq => by simp [assignTo] at hq⟩
+        · exact h k
+      · exact ih _ _ _ _ h j
+    · exact h j
+
+theorem setP_mem (s : S) (p : Nat) (x : Proc) (q : Nat) :
+    ((setP s p x).proc q).mem = if q = p then x.mem else (s.proc q).mem := by
+  simp only [setP, upd]; split <;> rfl
+
+theorem provInv_step (cfg : Nat → Cfg) (fails : Nat → Nat → Bool) (J : Nat) (hist : Nat → Job) (s s' : S) (p : Nat)
+    (hi : ProvInv hist s) (hs : step cfg fails J s p = some s') : ProvInv hist s' := by
+  unfold step at hs
+  -- the steps that leave every record and the log as they are
+  have keep : ∀ x : Proc, x.mem = (s.proc p).mem → ProvInv hist (setP s p x) := by
+    intro x hx j
+    obtain ⟨hd, hb, hm⟩ := hi j
+    refine ⟨hd, hb, fun q => ?_⟩
+    rw [setP_mem]; split
+    · rw [hx]; exact hm p
+    · exact hm q
+  revert hs
+  cases hpc : (s.proc p).pc <;> simp only [hpc] <;> intro hs
+  · -- idle
+    split at hs
+    · cases hs; exact keep _ rfl
+    · split at hs <;> (cases hs; exact keep _ rfl)
+  · -- wantLock
+    split at hs
+    · cases hs
+      intro j
+      obtain ⟨hd, hb, hm⟩ := keep { s.proc p with pc := locked } rfl j
+      exact ⟨hd, hb, hm⟩
+    · cases hs
+  · -- locked: merge
+    cases hs
+    intro j
+    obtain ⟨hd, hb, hm⟩ := hi j
+    refine ⟨hd, hb, fun q => ?_⟩
+    rw [setP_mem]; split
+    · exact okRec_merge p s.disk (s.proc p).mem j hd (hm p)
+    · exact hm q
+  · -- merged: back-up written from memory
+    cases hs
+    intro j
+    obtain ⟨hd, hb, hm⟩ := hi j
+    refine ⟨hd, hm p, fun q => ?_⟩
+    show okRec hist s.execLog j (((setP s p _).proc q).mem j)
+    rw [setP_mem]; split
+    · exact hm p
+    · exact hm q
+  · -- backedUp: assignment
+    cases hs
+    intro j
+    obtain ⟨hd, hb, hm⟩ := hi j
+    refine ⟨hd, hb, fun q => ?_⟩
+    rw [setP_mem]; split
+    · exact okRec_assign p (cfg p) J J (s.proc p).mem (s.proc p).mpos [] (s.proc p).started (fun k => (hi k).2.2 p) j
+    · exact hm q
+  · -- assignedSt: job file written from memory
+    cases hs
+    intro j
+    obtain ⟨hd, hb, hm⟩ := hi j
+    refine ⟨hm p, hb, fun q => ?_⟩
+    show okRec hist s.execLog j (((setP s p _).proc q).mem j)
+    rw [setP_mem]; split
+    · exact hm p
+    · exact hm q
+  · -- written: release
+    cases hs
+    intro j
+    obtain ⟨hd, hb, hm⟩ := keep { s.proc p with pc := unlocked } rfl j
+    exact ⟨hd, hb, hm⟩
+  · -- unlocked
+    split at hs <;> (cases hs; exact keep _ rfl)
+  · -- exec: the report enters the memory record, the execution enters the log
+    rename_i jx
+    cases hs
+    intro j
+    obtain ⟨hd, hb, hm⟩ := hi j
+    have sub : ∀ e ∈ s.execLog, e ∈ s.execLog ++ [(p, jx)] := fun e he => List.mem_append_left _ he
+    refine ⟨okRec_mono hd sub, okRec_mono hb sub, fun q => ?_⟩
+    show okRec hist (s.execLog ++ [(p, jx)]) j (((setP s p _).proc q).mem j)
+    rw [setP_mem]; split
+    · show okRec hist (s.execLog ++ [(p, jx)]) j (upd (s.proc p).mem jx (report fails p jx ((s.proc p).mem jx)) j)
+      unfold upd
+      split
+      · rename_i hj
+        subst hj
+        have hold := okRec_mono (hm p) sub
+        unfold report
+        split
+        · refine ⟨fun q' hq' => hold.1 q' hq', fun q' hq' => ?_⟩
+          simp only [Option.some.injEq] at hq'
+          subst hq'
+          exact Or.inl (List.mem_append_right _ (by simp))
+        · refine ⟨fun q' hq' => ?_, fun q' hq' => hold.2 q' hq'⟩
+          simp only [Option.some.injEq] at hq'
+          subst hq'
+          exact Or.inl (List.mem_append_right _ (by simp))
+      · exact okRec_mono (hm p) sub
+    · exact okRec_mono (hm q) sub
+  · cases hs
+
+/-- **no result is invented or misattributed**: in every state reachable from a job file with any history, by any interleaving of any
+    number of processes with any restart patterns, cache sizes and job limits, every output and every error text — in the job file,
+    in its back-up and in every process's memory — either is the text the history carried for that job or names a process whose
+    execution of THAT job is in the execution log -/
+theorem reach_provenance (cfg : Nat → Cfg) (fails : Nat → Nat → Bool) (J : Nat) (hist : Nat → Job) (s : S)
+    (h : Reach cfg fails J hist s) : ProvInv hist s := by
+  induction h with
+  | init =>
+    intro j
+    have : okRec hist [] j (hist j) := ⟨fun p hp => Or.inr hp, fun p hp => Or.inr hp⟩
+    exact ⟨this, this, fun _ => this⟩
+  | step s s' p _ hs ih => exact provInv_step cfg fails J hist s s' p ih hs
+
+/-- the statement on the job file alone, as the check's trace clause reads it: an output in the file that the history did not carry
+    for that job was reported by the named process for that job -/
+theorem file_output_was_reported (cfg : Nat → Cfg) (fails : Nat → Nat → Bool) (J : Nat) (hist : Nat → Job) (s : S)
+    (h : Reach cfg fails J hist s) (j p : Nat) (ho : (s.disk j).out = some p) (hnew : (hist j).out ≠ some p) :
+    (p, j) ∈ s.execLog := by
+  rcases ((reach_provenance cfg fails J hist s h) j).1.1 p ho with h1 | h1
+  · exact h1
+  · exact absurd h1 hnew
+
+/-! non-vacuity: the demo run reaches a state whose file carries process 0's output for job 0, and the log has the execution -/
+example : (match demoRun 16 with
+    | some s => ((s.disk 0).out == some 0) && s.execLog.contains (0, 0)
+    | none => false) = true := by decide +kernel
+end provenance
+
 end Votca.C10R
 
